@@ -43,6 +43,24 @@ pub fn judge(scn: &Scenario, res: &ExecResult, _b: Option<&ExecResult>) -> Vec<V
             if res.cut.is_some() {
                 return out;
             }
+            // applications that only look at their events at the end of the run: the report must
+            // be among the (at most 100, newest) events the queue then holds
+            if scn.peers.iter().any(|p| !p.drain) {
+                for (ni, nt) in res.nodes.iter().enumerate() {
+                    if nt.is_spec || nt.crashed.is_some() {
+                        continue;
+                    }
+                    for oj in (0..scn.peers.len()).filter(|j| *j != ni && (ni == dn || *j == dn)) {
+                        let oaddr = scn.peers[oj].addr;
+                        DETECTED.fetch_add(1, std::sync::atomic::Ordering::Relaxed);
+                        if !nt.events.iter().any(|e| matches!(e.2, Ev::Desync { addr, frame, .. } if addr == oaddr && frame > g)) {
+                            out.push(v("desync-missed", ni, 0, format!(
+                                "node {dn}'s game diverges from frame {g} on; session {ni} never drained its events during the run, and the {} events its queue holds at the end contain no DesyncDetected for address {oaddr}", nt.events.len())));
+                        }
+                    }
+                }
+                return out;
+            }
             let interval = scn.peers[0].desync as i32;
             let w = scn.peers[0].window as i32;
             let d = scn.peers.iter().map(|p| p.delay).max().unwrap_or(0) as i32;
@@ -340,6 +358,37 @@ pub fn c09() -> i32 {
         let cfg = ExploreCfg { k: Some(0), wall: Duration::from_secs(if t { 900 } else { 40 }), ..Default::default() };
         let out = explore(&scns, &cfg, &judge);
         rep.absorb("both halves over seven further configurations (four peers, two local players per peer, spectators, latencies 0..3, a peer ticking at half rate, PredictDefault, all input programs)", out, &props, json!({"k": 0, "scenarios": n}));
+    }
+    // ---- detection with applications that look at their events only at the end, after more
+    // than a hundred other events have piled up (a flaky link: NetworkInterrupted / NetworkResumed)
+    {
+        let mut scns = Vec::new();
+        for (tp, iv, cycles) in [("1+1", 1u32, 60), ("1+1", 4, 55), ("1+1+1", 2, 60)] {
+            let mut s = base_scn("c09-detect-undrained", tp, 8, 0, false, Pred::RepeatLast, Program::Changing, 1);
+            for p in s.peers.iter_mut() {
+                p.desync = iv;
+                p.drain = false;
+                p.notify_ms = 50;
+                p.timeout_ms = 5000;
+            }
+            let (a, b) = (s.peers[0].addr, s.peers[1].addr);
+            for c in 0..cycles {
+                s.outages.push(Outage { from: b, to: a, start: 5 + c * 12, len: 6, classes: CLASS_ALL });
+                s.outages.push(Outage { from: a, to: b, start: 5 + c * 12, len: 6, classes: CLASS_ALL });
+            }
+            let end = 5 + cycles * 12 + 10;
+            // the divergence starts after the last outage, at a frame the sessions reach only then
+            s.diverge = Some((1, end - 40));
+            s.name = format!("{} interval={iv} {cycles} interruptions first, node 1 diverges from frame {}", s.name, end - 40);
+            s.horizon = end;
+            s.probe = 120;
+            s.checks = CK_C02;
+            scns.push(s);
+        }
+        let n = scns.len();
+        let cfg = ExploreCfg { k: Some(0), wall: Duration::from_secs(60), ..Default::default() };
+        let out = explore(&scns, &cfg, &judge);
+        rep.absorb("detection half with applications that never drain events during the run and a queue already full of NetworkInterrupted/NetworkResumed", out, &props, json!({"k": 0, "scenarios": n}));
     }
     let det = DETECTED.load(std::sync::atomic::Ordering::Relaxed);
     let nr = NOT_REACHED.load(std::sync::atomic::Ordering::Relaxed);
